@@ -105,3 +105,8 @@ reg('C20', 'exploration', 'G + X (cast acceptance grid + exhaustive value enumer
     'Every (cast, wrapper, source type, target type) combination is a probe program: accepted casts must return exactly tainted<Target> and correspond to a well-formed C++ cast; each accepted cast is executed on boundary values (for pointers: the first/last 256 offsets and a stride through a 64 KiB sandbox) and compared bit for bit with the plain C++ cast, designated address and guest representation unchanged; from_opaque(to_opaque(t)) is compared byte for byte for every supported type.',
     'Value domains are boundary lattices for wide types; floating sources restricted to values with defined conversions; opaque arguments/results are covered under C11/C12.',
     'DESIGN.md section 3, C20')
+
+reg('C08', 'exploration', 'G + X (generated struct family + exhaustive value selections)', 'bounded exhaustive enumeration of a generated struct family x boundary value selections against an independent guest layout, fork isolation for noexcept aborts',
+    'Every field-kind sequence of length 1-2 (1-3 plus a reduced length-4 family in the thorough tier) over 17 field kinds and long rotated structs is generated with RLBox\'s reflection macros, an independently declared fixed-width guest struct and offsets computed by the generator\'s own layout routine, under two foreign ABIs; size, alignment and every field offset are compared three ways, and every selection of boundary values is loaded, stored, passed and returned by value with field-by-field comparison; unrepresentable field values must abort.',
+    'Guest layouts and the layout routine are written by hand for lp32/wide with 16-bit pointers; structs with const fields only field-wise (RLBox offers no whole-struct paths for them).',
+    'DESIGN.md section 3, C08')
